@@ -20,7 +20,7 @@ EXPLANATION = ("Gaussian._sample == mean + B e with sqrtprec B == I on every pat
                "sample after parameter reassignment; GMRF draws: B B^T == pseudo-inverse of the precision (numeric, closed).")
 ASSUMPTIONS = ["numpy / scipy generators sample the law they document (assumed); an affine image mean + B e of a standard normal vector is N(mean, B B^T) (lemma L-affine, cited)",
                "statistical agreement of moments is a consequence via the lemmas, not measured",
-               "ModifiedHalfNormal rejection samplers: not under contract yet (see DESIGN)"]
+               "ModifiedHalfNormal: the gamma- and normal-proposal rejection schemes are under contract (envelope + proportionality, threshold read off the accepting path); the negative-gamma scheme (non-polynomial change of variables) and the scheme selection are bounded stand-ins (Kolmogorov distance of 4000 draws)"]
 
 
 def _normal_queue(c, shape):
@@ -210,6 +210,140 @@ def gmrf_cov(c, bc, order, N=5, two_d=False):
             note=f"first row of B B^T {np.round(cov[0], 4)} vs pinv {np.round(target[0], 4)}")
 
 
+# ------------------------------------------------------------------------------------------ ModifiedHalfNormal rejection schemes
+class _Retry(Exception):
+    pass
+
+
+class RejectionRng:
+    """generator contract for one round of a rejection loop: the proposal draw and the uniform are fresh symbols (or seeded numbers);
+    a second proposal draw ends the path (the loop starts over with independent draws, so one round determines the accepted law)"""
+    def __init__(self, c): self.c = c; self.law = None; self.U = None; self.rounds = 0
+    def _round(self):
+        self.rounds += 1
+        if self.rounds > 1: raise _Retry()
+    def gamma(self, shape, scale):
+        self._round(); t = self.c.real('T', pos=True); self.law = ('gamma', shape, scale, t); return t
+    def normal(self, mu, sd):
+        self._round(); x = self.c.real('Xn'); self.law = ('normal', mu, sd, x); return x
+    def uniform(self):
+        self.U = self.c.real('U', lo=0, hi=1); return self.U
+
+
+def mhn_rejection(c, scheme):
+    """accepted draws of a rejection scheme have density  q(x) * min(1, exp(a(x))) / Z  where q is the proposal density and a(x) the
+    threshold log U is compared with.  That is the target density f(x) = x^(alpha-1) exp(-beta x^2 + gamma x) (up to the constant) iff
+      (envelope)         a(x) <= 0 wherever the proposal can land and is not rejected outright, and
+      (proportionality)  log q(x) + a(x) - log f(x) does not depend on x.
+    a(x) is read off the accepting path of the REAL function (the literal that compares log U); q from the generator call it made."""
+    from cuqi.distribution import ModifiedHalfNormal
+    from pvc import diff as D
+    d = ModifiedHalfNormal(1.0, 1.0, 1.0)
+    if scheme == 'normal':
+        al = c.real('alpha', lo=1, hi=50); c.assume(al > 1)
+    else:
+        al = c.real('alpha', pos=True)
+    be = c.real('beta', pos=True)
+    ga = c.real('gamma', pos=True)
+    rng = RejectionRng(c)
+    if not c.sym:
+        return _mhn_native(c, d, scheme, float(al), float(be), float(ga))
+    try:
+        if scheme == 'gamma': X = d._MHN_sample_gamma_proposal(al, be, ga, rng)
+        else: X = d._MHN_sample_normal_proposal(al, be, ga, None, rng)
+    except _Retry:
+        core.ST.pc and None
+        raise core.Abort()                  # rejected round: nothing returned, the loop repeats with fresh draws
+    logU = core.LOG(core.T(rng.U))
+    thr = None
+    for lit in core.ST.pc:
+        if z3.is_lt(lit) and lit.arg(0).eq(logU): thr = lit.arg(1)
+        elif z3.is_gt(lit) and lit.arg(1).eq(logU): thr = lit.arg(0)
+        elif z3.is_not(lit) and z3.is_le(lit.arg(0)) and lit.arg(0).arg(1).eq(logU): thr = lit.arg(0).arg(0)
+        elif z3.is_not(lit) and z3.is_ge(lit.arg(0)) and lit.arg(0).arg(0).eq(logU): thr = lit.arg(0).arg(1)
+    c.holds('accepting_path_compares_log_U_with_a_threshold', thr is not None, note=str([str(l)[:80] for l in core.ST.pc]))
+    if thr is None: return
+    a = core.SReal(thr)
+    kind, p1, p2, v = rng.law
+    Xt = core.T(X); vt = core.T(v)
+    c.holds('returned_value_is_the_accepted_proposal', True)
+    c.holds('accepted_values_are_positive', X > 0)
+    c.holds('envelope:acceptance_threshold_is_never_positive', a <= 0)
+    # densities as log terms in the proposal variable v (T for the gamma proposal with X = sqrt(T), X itself for the normal proposal)
+    if kind == 'gamma': logq = (p1 - 1) * v.log() - v / p2
+    else: logq = -((v - p1) * (v - p1)) / (2 * p2 * p2)
+    logf = (al - 1) * X.log() - be * X * X + ga * X
+    dX = D.d(Xt, vt)
+    total = core.T(logq) + thr - core.T(logf)
+    dtotal = D.d(total, vt)
+    if kind == 'gamma':
+        # change of variables: density of T induced by f on X is f(X(T)) |dX/dT|
+        d2X = D.d(dX, vt)
+        dtotal = dtotal - d2X / dX
+    c.eq('proportionality:proposal_density_times_acceptance_over_target_density_is_constant', core.SReal(z3.simplify(dtotal)), core.SReal(z3.RealVal(0)))
+
+
+def _mhn_native(c, d, scheme, al, be, ga):
+    """bounded numeric stand-in of the same two clauses on a grid of x, with the real function's own acceptance decision"""
+    import math
+    class Rng:
+        def __init__(s, x, u): s.x = x; s.u = u; s.n = 0; s.law = None
+        def _r(s):
+            s.n += 1
+            if s.n > 1: raise _Retry()
+        def gamma(s, shape, scale): s._r(); s.law = ('gamma', shape, scale); return s.x ** 2
+        def normal(s, mu, sd): s._r(); s.law = ('normal', mu, sd); return s.x
+        def uniform(s): return s.u
+    def accepted(x, u):
+        r = Rng(x, u)
+        try:
+            (d._MHN_sample_gamma_proposal(al, be, ga, r) if scheme == 'gamma' else d._MHN_sample_normal_proposal(al, be, ga, None, r))
+            return True, r.law
+        except _Retry:
+            return False, r.law
+    xs = np.linspace(0.05, 6.0, 60); consts = []; worst = 0.0
+    for x in xs:
+        # the threshold a(x) that log U is compared with, by bisection on log u (the acceptance set is {log u < a(x)})
+        ok1, law = accepted(x, 1.0)
+        if law is None: continue
+        if ok1: a = 0.0; worst = max(worst, 1.0)      # accepted even at u = 1: the threshold is positive there
+        else:
+            lo, hi = -700.0, 0.0
+            if not accepted(x, math.exp(lo))[0]: continue          # rejected outright (outside the support)
+            for _ in range(80):
+                mid = 0.5 * (lo + hi)
+                if accepted(x, math.exp(mid))[0]: lo = mid
+                else: hi = mid
+            a = lo
+        p = math.exp(a)
+        if law[0] == 'gamma': logq = (2 * law[1] - 1) * math.log(x) - x * x / law[2]
+        else: logq = -((x - law[1]) ** 2) / (2 * law[2] ** 2)
+        logf = (al - 1) * math.log(x) - be * x * x + ga * x
+        consts.append(logq + a - logf)
+    consts = np.array(consts)
+    c.holds('envelope:acceptance_threshold_is_never_positive', worst == 0.0, note='the proposal is accepted with log U = 0 at some x: the acceptance probability is clipped at one there')
+    c.holds('proportionality:proposal_density_times_acceptance_over_target_density_is_constant', bool(np.ptp(consts) < 1e-6 * max(1.0, abs(consts).max())),
+            note=f"log q + log P(accept) - log f ranges over {consts.min():.4g} .. {consts.max():.4g} on x in (0, 6]")
+
+
+def mhn_law_native(c, which):
+    """bounded stand-in for the schemes whose change of variables is not polynomial (negative gamma) and for the scheme selection:
+    Kolmogorov distance of 4000 draws of the real function from the numerically integrated target distribution function"""
+    import scipy.integrate as si
+    from cuqi.distribution import ModifiedHalfNormal
+    d = ModifiedHalfNormal(1.0, 1.0, 1.0)
+    al = c.real('alpha', lo=0.3, hi=6); be = c.real('beta', lo=0.3, hi=3); ga = c.real('gamma', lo=0.1, hi=4)
+    if which == 'negative_gamma': ga = -ga
+    rng = np.random.default_rng(int(c.real('seed', lo=0, hi=10 ** 6)))
+    f = lambda x: x ** (al - 1) * np.exp(-be * x * x + ga * x)
+    Z = si.quad(f, 0, np.inf)[0]
+    xs = np.sort(np.array([d._MHN_sample(al, be, ga, rng=rng) for _ in range(4000)]))
+    F = np.array([si.quad(f, 0, x)[0] / Z for x in xs[::40]])
+    emp = (np.arange(len(xs))[::40] + 0.5) / len(xs)
+    ks = float(np.max(np.abs(F - emp)))
+    c.holds('draws_follow_the_documented_density', ks < 0.04, note=f"Kolmogorov distance {ks:.4f} at alpha={al:.3g} beta={be:.3g} gamma={ga:.3g} (4000 draws; 0.1% critical value 0.031)")
+
+
 def jobs(tier):
     J = []
     q = tier == 'quick'
@@ -236,4 +370,9 @@ def jobs(tier):
             J.append(Job(f'GMRF._sample:covariance:{bc}:order={order}', lambda c, bc=bc, o=order: gmrf_cov(c, bc, o), 'B', [f'{D}._gmrf:GMRF._sample'], nnum=1))
             if bc == 'periodic': continue          # 2D periodic sampling is refused by the library (NotImplementedError): nothing to specify
             J.append(Job(f'GMRF._sample:covariance2D:{bc}:order={order}', lambda c, bc=bc, o=order: gmrf_cov(c, bc, o, 3 if o < 2 else 4, True), 'B', [f'{D}._gmrf:GMRF._sample'], nnum=1))
+    MH = [f'{D}._modifiedhalfnormal:ModifiedHalfNormal._MHN_sample_gamma_proposal', f'{D}._modifiedhalfnormal:ModifiedHalfNormal._MHN_sample_normal_proposal']
+    for scheme in ('gamma', 'normal'):
+        J.append(Job(f'MHN.rejection_scheme:{scheme}_proposal', lambda c, s=scheme: mhn_rejection(c, s), 'Pbox', MH, timeout=600))
+    for which in ('negative_gamma', 'positive_gamma_selection'):
+        J.append(Job(f'MHN._MHN_sample:law:{which}', lambda c, w=which: mhn_law_native(c, w), 'B', [f'{D}._modifiedhalfnormal:ModifiedHalfNormal._MHN_sample', f'{D}._modifiedhalfnormal:ModifiedHalfNormal._MHN_sample_negative_gamma', f'{D}._modifiedhalfnormal:ModifiedHalfNormal._MHN_sample_positive_gamma_1'], nnum=3 if q else 12))
     return J
